@@ -86,6 +86,7 @@ func traceFields(o opts) error {
 			continue
 		}
 		r := rng(o.seed, h)
+		note("fields history %d (seed %d): a struct built at run time, parsed, handed to NewStore or applied", h, o.seed)
 		nf := 1 + r.Intn(6)
 		var sfs []reflect.StructField
 		type fdesc struct {
@@ -557,7 +558,12 @@ func traceFields(o opts) error {
 					return
 				}
 				names := f.Secrets()
-				st4, err := setec.NewStore(cx, setec.StoreConfig{Client: m, Secrets: names, PollInterval: -1, Logf: func(string, ...any) {}})
+				// every name is present at the service, so construction does not have to wait; the limit
+				// is there for a store that asks for other names than it should (reported by the main
+				// observation of this family)
+				cxNew, cancelNew := context.WithTimeout(cx, 300*time.Millisecond)
+				st4, err := setec.NewStore(cxNew, setec.StoreConfig{Client: m, Secrets: names, PollInterval: -1, Logf: func(string, ...any) {}})
+				cancelNew()
 				if err != nil {
 					res = "-"
 					return
@@ -602,7 +608,9 @@ func traceFields(o opts) error {
 					res = "-"
 					return
 				}
-				st5, err := setec.NewStore(cx, setec.StoreConfig{Client: m, Secrets: []string{join("zeta"), join("mid")}, PollInterval: -1, Logf: func(string, ...any) {}})
+				cxNew, cancelNew := context.WithTimeout(cx, 300*time.Millisecond)
+				st5, err := setec.NewStore(cxNew, setec.StoreConfig{Client: m, Secrets: []string{join("zeta"), join("mid")}, PollInterval: -1, Logf: func(string, ...any) {}})
+				cancelNew()
 				if err != nil {
 					res = "-"
 					return
